@@ -256,6 +256,8 @@ def run_batch(engine, variant, seed, tag, profile, runs, steps, extra_args=(), l
         # a chunk normally takes well under a second per 1000 runs; a worker that needs
         # 100x that is stuck in a call that does not return (reported from its journal)
         per_run = {"sched": 0.003, "buf": 0.002}.get(engine, 0.0004 * max(steps, 1))
+        if variant == "asan":
+            per_run *= 6  # sanitizer build, poisoned red zones, quarantine
         if profile == "recycle":
             per_run = 0.05 + steps * 2e-6
         timeout = 45 + (runs // nchunks) * per_run
